@@ -1,0 +1,80 @@
+//go:build verif
+// +build verif
+
+package util
+
+import "time"
+
+// Add-only exports for the C24 schedule replay (build tag verif).
+
+// VerifStopTimers stops the idle and capacity timers of a fresh pool so that
+// the harness alone decides when closeIdleResources / scaleInResources run.
+func (rp *ResourcePool) VerifStopTimers() {
+	if rp.idleTimer != nil {
+		rp.idleTimer.Stop()
+	}
+	if rp.capTimer != nil {
+		rp.capTimer.Stop()
+	}
+}
+
+// VerifCloseIdle runs one idle sweep (what the idle timer calls).
+func (rp *ResourcePool) VerifCloseIdle() { rp.closeIdleResources() }
+
+// VerifScaleIn runs one scale-in tick (what the capacity timer calls).
+func (rp *ResourcePool) VerifScaleIn() { rp.scaleInResources() }
+
+// VerifChanLen is len(rp.resources).
+func (rp *ResourcePool) VerifChanLen() int { return len(rp.resources) }
+
+// VerifTodoLen is len(rp.scaleInTodo).
+func (rp *ResourcePool) VerifTodoLen() int { return len(rp.scaleInTodo) }
+
+// VerifBaseCapacity is the base capacity counter.
+func (rp *ResourcePool) VerifBaseCapacity() int64 { return rp.baseCapacity.Get() }
+
+// VerifLockFree reports whether rp.lock is free (only meaningful while every
+// pool goroutine is parked at a step point).
+func (rp *ResourcePool) VerifLockFree() bool {
+	if rp.lock.TryLock() {
+		rp.lock.Unlock()
+		return true
+	}
+	return false
+}
+
+// VerifSetScaleOutRecent makes the last scale-out look recent (true) or more
+// than 60 s old (false) to scaleInResources.
+func (rp *ResourcePool) VerifSetScaleOutRecent(recent bool) {
+	if recent {
+		rp.scaleOutTime = time.Now().Unix()
+	} else {
+		rp.scaleOutTime = 0
+	}
+}
+
+// VerifSetIdleTimeout sets the idle timeout without touching the idle timer.
+func (rp *ResourcePool) VerifSetIdleTimeout(d time.Duration) { rp.idleTimeout.Set(d) }
+
+// VerifUnblock offers an empty slot to a goroutine blocked on the resource
+// channel (used only to unwind goroutines after a schedule has ended).
+func (rp *ResourcePool) VerifUnblock() (sent bool) {
+	defer func() { _ = recover() }()
+	select {
+	case rp.resources <- resourceWrapper{}:
+		return true
+	default:
+		return false
+	}
+}
+
+// VerifDrain takes one slot out of the resource channel if there is one (used
+// only to unwind goroutines blocked on a send after a schedule has ended).
+func (rp *ResourcePool) VerifDrain() bool {
+	select {
+	case _, ok := <-rp.resources:
+		return ok
+	default:
+		return false
+	}
+}
